@@ -128,6 +128,14 @@ class Scheduler:
             if w.exited:
                 return [(("Join", f"{who}:{w.name}"), False)]
             return []
+        if kind == "sleep":
+            return [(("Sleep", who), True)]            # time.sleep(): a polling move
+        if kind in ("vget", "vset"):
+            # reading a shared value again while nobody has written it is a polling move
+            st = kind == "vget" and obj.seen.get(who) == obj.version
+            return [(("ValueGet" if kind == "vget" else "ValueSet", who), st)]
+        if kind == "lacq":
+            return [(("LockAcq", who), False)] if obj.owner is None else []
         if kind == "custom":
             # extra = (name, enabled_fn, stutter_fn)
             name, en, st = extra
@@ -239,6 +247,12 @@ class Scheduler:
             res = obj.flag
         elif kind == "custom":
             res = name
+        elif kind == "lacq":
+            obj.owner = a.name
+        elif kind == "vget":
+            obj.seen[a.name] = obj.version
+        elif kind == "vset":
+            obj.__dict__["version"] = obj.version + 1
         a.result = res
         self.current = a
         a.go.release()
@@ -387,6 +401,51 @@ class FakeEvent:
         return self.sched.sync("is_set", self)
 
 
+class FakeLock:
+    """multiprocessing.Lock / the lock of a shared Value: acquisition is a scheduling point"""
+    def __init__(self, sched):
+        self.sched = sched
+        self.owner = None
+
+    def acquire(self, block=True, timeout=None):
+        self.sched.sync("lacq", self)
+        return True
+
+    def release(self):
+        self.owner = None
+
+    def __enter__(self):
+        self.acquire()
+        return self
+
+    def __exit__(self, *a):
+        self.release()
+
+
+class FakeValue:
+    """multiprocessing.Value: every read and every write of .value is a scheduling point of its own
+    (`v.value += 1` is a read followed by a write, as between real processes)"""
+    def __init__(self, sched, init):
+        self.__dict__["_sched"] = sched
+        self.__dict__["_v"] = init
+        self.__dict__["_lock"] = FakeLock(sched)
+        self.__dict__["version"] = 0
+        self.__dict__["seen"] = {}
+
+    @property
+    def value(self):
+        self._sched.sync("vget", self)
+        return self._v
+
+    @value.setter
+    def value(self, x):
+        self._sched.sync("vset", self)
+        self.__dict__["_v"] = x
+
+    def get_lock(self):
+        return self._lock
+
+
 class FakeProcess:
     def __init__(self, sched, target=None, args=(), kwargs=None):
         self.sched = sched
@@ -434,6 +493,12 @@ class FakeMp:
     def get_start_method(self):
         return "fork"
 
+    def Value(self, typecode_or_type, *args, lock=True):
+        return FakeValue(self._sched, args[0] if args else 0)
+
+    def Lock(self):
+        return FakeLock(self._sched)
+
     def __getattr__(self, name):
         return getattr(self._real, name)
 
@@ -469,6 +534,19 @@ def run_under(schedule, fn, pipe_cap=1 << 30, max_steps=200000, fallback="progre
     saved_pu = pu.mp
     sys.modules["multiprocessing"] = fake
     pu.mp = fake
+    # time.sleep() called by an actor is a polling move of that actor (a parent that polls a counter
+    # while its workers run), not a real wait
+    import time as _time
+    real_sleep = _time.sleep
+    main_ident = threading.get_ident()
+
+    def sched_sleep(x):
+        me = getattr(sched._tls, "actor", None)
+        if (me is not None or threading.get_ident() == main_ident) and not sched.aborted:
+            sched.sync("sleep")
+        else:
+            real_sleep(x)
+    _time.sleep = sched_sleep
     try:
         try:
             v = fn(sched) if pass_sched else fn()
@@ -478,6 +556,7 @@ def run_under(schedule, fn, pipe_cap=1 << 30, max_steps=200000, fallback="progre
         except Exception as e:
             out = ("raised", e)
     finally:
+        _time.sleep = real_sleep
         sys.modules["multiprocessing"] = saved
         pu.mp = saved_pu
         if not sched.aborted:
